@@ -783,6 +783,12 @@ func isHseqType(t types.Type) bool {
 }
 
 func offsRules(c *core.Ctx) {
+	// the listing (offsets included) is a function of the type: what hseq.New reaches keeps no state between calls
+	// (shared by C01, C02 and C03 through this function)
+	if c.Rules["unfold-pure"] == nil {
+		c.Doc("unfold-pure", 1, "hseq.New and what it reaches touch no package state, except read-only tables, locks and memos obeying the memo discipline")
+	}
+	statePurity(c, "unfold-pure", "hseq", "New", "the listing")
 	ui := unfoldInfoOf(c)
 	if ui == nil {
 		c.Undecided("offs-writers", "hseq.unfold", 0, "cannot discover the unfolding function from hseq.New")
